@@ -7,6 +7,7 @@
    functions the executable trace model (Model.v) runs against the real code on every check. *)
 From Coq Require Import List ZArith Bool Lia.
 From BLB Require Import Gen.Consts C05.GC C05.Proto.
+From BLB Require Cluster.Model Cluster.Sched C05.Model C05.Strict C05.Lift C05.Witness.
 Import ListNotations.
 Open Scope Z_scope.
 
@@ -166,3 +167,70 @@ Example c05_nonvacuous :
   let st0 := prun pinit (firstn 14 readd_schedule) in
   removals st0 0 false = [(3, (0, 0))].
 Proof. vm_compute. repeat split; reflexivity. Qed.
+
+(* ================================================================== over the executable trace model *)
+(* The statements below are about C05.Model (the model that is compared with the real code on every run):
+   state = Cluster model state + soup of instructions; run = Lift.xrun from C05.Model.init_x.  Schedules are
+   those accepted by Lift.ok5_run: every Cluster event accepted by Cluster.Sched.ok_ev at ladder level 4
+   (lost, duplicated and failed requests, delayed replies, restarts, leader changes, re-replication, fixVersion;
+   carved out there: a superseded PullTract taking effect = the F21 trigger, a crash inside PullTract, injected
+   probes), tract reports (event 40) and deliveries of any instruction of the soup at any later time, any number
+   of times, with or without disk fault (event 41); plus two side conditions of C05: a new blob does not take an
+   id that an instruction already declared gone, and a gone-instruction does not execute while a client write on
+   that same non-existent blob is in progress.  Delete / undelete / metadata GC (42-45) and the RS events (46-51)
+   are NOT in this alphabet: for them the Proto theorems above remain the only ones.
+   Lift.removed x i f is the list of copies the delivery of instruction i removes at its server in state x
+   (Lift.deliver_is_removed: C05.Model.step_deliver removes exactly these). *)
+
+(* [PARTIAL] c05_gc_safe_replicated over the trace model for the schedules just described: a delivery that deletes a regular copy at the instruction's server finds the blob absent from the durable state or the tract inside the acknowledged length with that server not among its hosts at any version. Partial because delete undelete final delete and RS events are outside the schedule predicate and because of the carve outs of Sched.ok_ev *)
+Theorem c05_gc_safe_replicated_cluster : forall evs,
+  Lift.ok5_run C05.Model.init_x evs = true ->
+  let x := Lift.xrun C05.Model.init_x evs in
+  forall i f t, In i (C05.Model.x_soup x) -> In t (Lift.removed x i f) -> is_rs t = false ->
+  match Cluster.Model.zget (Cluster.Model.s_blobs (C05.Model.x_cl x)) (fst t) with
+  | None => True
+  | Some (_, nt) => snd t < nt /\
+      forall dv hs, Cluster.Model.tget (Cluster.Model.s_dtr (C05.Model.x_cl x)) t = Some (dv, hs) -> ~ In (C05.Model.i_ts i) hs
+  end.
+Proof. exact Lift.safe_replicated_cluster. Qed.
+Print Assumptions c05_gc_safe_replicated_cluster.
+
+(* [PARTIAL] c05_gc_keeps_uncommitted_repair over the trace model for the same schedules: a copy ahead of the durable version of its tract is never deleted by any delivery *)
+Theorem c05_gc_keeps_uncommitted_repair_cluster : forall evs,
+  Lift.ok5_run C05.Model.init_x evs = true ->
+  let x := Lift.xrun C05.Model.init_x evs in
+  forall i f t dv hs r, In i (C05.Model.x_soup x) -> is_rs t = false ->
+  Cluster.Model.tget (Cluster.Model.s_dtr (C05.Model.x_cl x)) t = Some (dv, hs) ->
+  Cluster.Model.rget (Cluster.Model.s_reps (C05.Model.x_cl x)) (C05.Model.i_ts i, t) = Some r -> dv < Cluster.Model.r_ver r ->
+  ~ In t (Lift.removed x i f).
+Proof. exact Lift.keeps_uncommitted_repair_cluster. Qed.
+Print Assumptions c05_gc_keeps_uncommitted_repair_cluster.
+
+(* [FULL] over the Cluster model for every event sequence without any schedule restriction: a durable tract record never disappears its version never decreases and the host set of a given durable version never changes and no blob comes into being except by the blob creation event *)
+Theorem c05_hosts_change_only_with_version : forall st ev,
+  hd 0 ev <> 2 -> Cluster.Inv.dur_ok st ->
+  (forall tk dv hs, Cluster.Model.tget (Cluster.Model.s_dtr st) tk = Some (dv, hs) ->
+     exists dv' hs', Cluster.Model.tget (Cluster.Model.s_dtr (fst (Cluster.Model.step st ev))) tk = Some (dv', hs') /\
+                     dv <= dv' /\ (dv' = dv -> hs' = hs)) /\
+  (forall b, Cluster.Model.zget (Cluster.Model.s_blobs st) b = None ->
+             Cluster.Model.zget (Cluster.Model.s_blobs (fst (Cluster.Model.step st ev))) b = None).
+Proof. intros st ev N D. destruct (C05.Strict.sadv_step st ev N D) as [_ [S B]]. split; [exact S | exact B]. Qed.
+Print Assumptions c05_hosts_change_only_with_version.
+
+(* [PARTIAL] the key lemma of DESIGN C05 over the pure Cluster model: a server that is not among the hosts of a tract at durable version d0 and is among them later is there at a strictly greater durable version for every event sequence and for schedules of ladder level 4 the copy it then holds has version at least d0 plus 1. Partial only through the carve outs of Sched.ok_run 4 *)
+Theorem c05_rehosted_copy_is_newer : forall evs1 evs2 tk d0 H0 d1 H1 s,
+  let st1 := Cluster.Model.run_state Cluster.Model.init_state evs1 in
+  let st2 := Cluster.Model.run_state st1 evs2 in
+  Cluster.Model.tget (Cluster.Model.s_dtr st1) tk = Some (d0, H0) -> ~ In s H0 ->
+  Cluster.Model.tget (Cluster.Model.s_dtr st2) tk = Some (d1, H1) -> In s H1 ->
+  d0 < d1 /\
+  (Cluster.Sched.ok_run 4 Cluster.Model.init_state (evs1 ++ evs2) = true ->
+   forall r, Cluster.Model.rget (Cluster.Model.s_reps st2) (s, tk) = Some r -> d0 + 1 <= Cluster.Model.r_ver r).
+Proof. exact Lift.rehosted_copy_is_newer. Qed.
+Print Assumptions c05_rehosted_copy_is_newer.
+
+(* non-vacuity of the lifted schedule predicate: the trace of the harness case d-readd recorded on the real code (43 events: a write, two re-replications, reports, the stale instruction delivered twice after the server became a host again) is accepted, and it contains a delivery that removes a copy and later ones that do not *)
+Example c05_lift_nonvacuous :
+  Lift.ok5_run C05.Model.init_x C05.Witness.readd_trace = true /\
+  length (C05.Model.x_soup (Lift.xrun C05.Model.init_x C05.Witness.readd_trace)) = 2%nat.
+Proof. vm_compute. split; reflexivity. Qed.
